@@ -1,8 +1,196 @@
 import Driver.Codec
+import LopdfModel.Model.Crypt
+import LopdfModel.Spec.Hash
+import LopdfModel.Spec.Aes
+import LopdfModel.Spec.SecHandler
 namespace Lopdf.Driver.C05
-open Lopdf Lopdf.Codec
+open Lopdf Lopdf.Codec Lopdf.Crypt
 
-/-- protocol operations of property C05: `none` = not an operation of this property. -/
-def handle (op : String) (args : List String) : Option String := none
+/-- concrete RC4 for the spec's `SPrims` is the Spec RC4 of Driver/C06; here only hashes / AES. -/
+def specPrims : Spec.Sec.SPrims :=
+  { md5 := Spec.md5, sha256 := Spec.sha256, sha384 := Spec.sha384, sha512 := Spec.sha512,
+    aesEnc := Spec.aesEncBlock, aesDec := Spec.aesDecBlock, rc4 := fun _ d => d }
+
+abbrev H2bTable := List ((Bytes × Bytes × Bytes) × Bytes)
+
+/-- the primitives the model is run with: Lean reference implementations of MD5 / SHA-256 / AES;
+Algorithm 2.B results shipped by the harness (`ext` table), computed by the Lean spec when absent. -/
+def prims (tbl : H2bTable) : Prims :=
+  { md5 := Spec.md5, sha256 := Spec.sha256, aesEnc := Spec.aesEncBlock, aesDec := Spec.aesDecBlock,
+    hash2b := fun pw salt u =>
+      match tbl.find? (fun e => e.1 == (pw, salt, u)) with
+      | some e => e.2
+      | none => Spec.Sec.alg2B specPrims pw salt u }
+
+def cfOfTok : String → Option CF
+  | "I" => some .identity | "R" => some .rc4 | "A" => some .aes128 | "B" => some .aes256 | _ => none
+def tokOfCF : CF → String
+  | .identity => "I" | .rc4 => "R" | .aes128 => "A" | .aes256 => "B"
+
+def errTok : Err → String
+  | .invalidKeyLength => "InvalidKeyLength"
+  | .invalidCipherTextLength => "InvalidCipherTextLength"
+  | .padding => "Padding"
+  | .incorrectPassword => "IncorrectPassword"
+  | .alreadyEncrypted => "AlreadyEncrypted"
+  | .notEncrypted => "NotEncrypted"
+  | .invalidRevision => "InvalidRevision"
+  | .unsupportedRevision => "UnsupportedRevision"
+  | .other w => w
+
+abbrev Toks := List String
+abbrev Parser (α : Type) := Toks → Option (α × Toks)
+
+def pBytes : Parser Bytes
+  | t :: rest => (bytesOfHex t).map (·, rest)
+  | [] => none
+def pNat : Parser Nat
+  | t :: rest => t.toNat?.map (·, rest)
+  | [] => none
+def pBool : Parser Bool
+  | "1" :: rest => some (true, rest)
+  | "0" :: rest => some (false, rest)
+  | _ => none
+def pMany {α} (p : Parser α) : Nat → Parser (List α)
+  | 0, ts => some ([], ts)
+  | n + 1, ts => do
+    let (a, ts) ← p ts
+    let (as, ts) ← pMany p n ts
+    pure (a :: as, ts)
+def pList {α} (p : Parser α) : Parser (List α) := fun ts => do
+  let (n, ts) ← pNat ts
+  pMany p n ts
+def pFilter : Parser (Bytes × CF) := fun ts => do
+  let (n, ts) ← pBytes ts
+  match ts with
+  | c :: ts => (cfOfTok c).map (fun f => ((n, f), ts))
+  | [] => none
+def pOptNat : Parser (Option Nat)
+  | "-1" :: rest => some (none, rest)
+  | t :: rest => t.toNat?.map (fun n => (some n, rest))
+  | [] => none
+
+def pState : Parser EncState := fun ts => do
+  let (version, ts) ← pNat ts
+  let (revision, ts) ← pNat ts
+  let (keyLength, ts) ← pOptNat ts
+  let (em, ts) ← pBool ts
+  let (fs, ts) ← pList pFilter ts
+  let (fileKey, ts) ← pBytes ts
+  let (stmF, ts) ← pBytes ts
+  let (strF, ts) ← pBytes ts
+  let (o, ts) ← pBytes ts
+  let (oe, ts) ← pBytes ts
+  let (u, ts) ← pBytes ts
+  let (ue, ts) ← pBytes ts
+  let (perms, ts) ← pNat ts
+  let (pe, ts) ← pBytes ts
+  pure ({ version, revision, keyLength, encryptMetadata := em, cryptFilters := fs, fileKey, stmF, strF,
+          ownerValue := o, ownerEncrypted := oe, userValue := u, userEncrypted := ue,
+          permissions := perms, permsEncrypted := pe }, ts)
+
+def showState (s : EncState) : String :=
+  String.intercalate " " ([toString s.version, toString s.revision,
+    (match s.keyLength with | some l => toString l | none => "-1"), (if s.encryptMetadata then "1" else "0"),
+    toString s.cryptFilters.length] ++ s.cryptFilters.flatMap (fun (n, f) => [hexTok n, tokOfCF f]) ++
+    [hexTok s.fileKey, hexTok s.stmF, hexTok s.strF, hexTok s.ownerValue, hexTok s.ownerEncrypted,
+     hexTok s.userValue, hexTok s.userEncrypted, toString s.permissions, hexTok s.permsEncrypted])
+
+def pVersion : Parser Version
+  | "v1" :: rest => some (.v1, rest)
+  | "v4" :: rest => some (.v4, rest)
+  | "r5" :: rest => some (.r5, rest)
+  | "v5" :: rest => some (.v5, rest)
+  | "v2" :: l :: rest => l.toNat?.map (fun l => (.v2 l, rest))
+  | _ => none
+
+def pConfig : Parser Config := fun ts => do
+  let (ver, ts) ← pVersion ts
+  let (em, ts) ← pBool ts
+  let (fs, ts) ← pList pFilter ts
+  let (stmF, ts) ← pBytes ts
+  let (strF, ts) ← pBytes ts
+  let (fileKey, ts) ← pBytes ts
+  let (ownerPw, ts) ← pBytes ts
+  let (userPw, ts) ← pBytes ts
+  let (perms, ts) ← pNat ts
+  pure ({ ver, encryptMetadata := em, cryptFilters := fs, stmF, strF, fileKey, ownerPw, userPw, permissions := perms }, ts)
+
+def pH2b : Parser H2bTable := pList fun ts => do
+  let (pw, ts) ← pBytes ts
+  let (salt, ts) ← pBytes ts
+  let (u, ts) ← pBytes ts
+  let (out, ts) ← pBytes ts
+  pure (((pw, salt, u), out), ts)
+
+def pIVs : Parser IVs := fun ts => do
+  let (l, ts) ← pList pBytes ts
+  pure (fun n => l.getD n [], ts)
+
+def pObjT : Parser Obj := fun ts => parseObj ts
+def pObjects : Parser Objects := fun ts => do
+  let (k, ts) ← pNat ts
+  parseObjects k ts
+
+def pDoc : Parser Doc := fun ts => do
+  let (maxId, ts) ← pNat ts
+  let (tr, ts) ← pObjT ts
+  let (os, ts) ← pObjects ts
+  match tr with
+  | .dict d => pure ({ trailer := d, objects := os, maxId }, ts)
+  | _ => none
+
+def showDoc (d : Doc) : String :=
+  toString d.maxId ++ " " ++ showObj (.dict d.trailer) ++ " " ++ showObjects d.objects
+
+def showExcept {α} (f : α → String) : Except Err α → String
+  | .ok a => "ok " ++ f a
+  | .error e => "err " ++ errTok e
+
+def run {α} (p : Parser α) (args : Toks) (k : α → String) : String :=
+  match p args with
+  | some (a, []) => k a
+  | _ => "bad-op"
+
+def handle (op : String) (args : List String) : Option String :=
+  match op with
+  | "c5_rc4" => some <| run (fun ts => do let (k, ts) ← pBytes ts; let (d, ts) ← pBytes ts; pure ((k, d), ts)) args
+      fun (k, d) => if rc4KeyOk k then "ok " ++ hexTok (rc4 k d) else "panic"
+  | "c5_key" => some <| run (fun ts => do
+        let (f, ts) ← pFilter (("-" : String) :: ts)
+        let (k, ts) ← pBytes ts; let (n, ts) ← pNat ts; let (g, ts) ← pNat ts; pure ((f.2, k, n, g), ts)) args
+      fun (f, k, n, g) => "ok " ++ hexTok (f.computeKey (prims []) k (n, g))
+  | "c5_filt" => some <| match args with
+      | dir :: rest => run (fun ts => do
+          let (f, ts) ← pFilter (("-" : String) :: ts)
+          let (k, ts) ← pBytes ts; let (iv, ts) ← pBytes ts; let (d, ts) ← pBytes ts; pure ((f.2, k, iv, d), ts)) rest
+        fun (f, k, iv, d) =>
+          if dir = "enc" then showExcept hexTok (f.encrypt (prims []) k iv d)
+          else if dir = "dec" then showExcept hexTok (f.decrypt (prims []) k d) else "bad-op"
+      | [] => "bad-op"
+  | "c5_pkcs5" => some <| run pBytes args fun d =>
+      match pkcs5Unpad d with | some p => "ok " ++ hexTok p | none => "err Padding"
+  | "c5_mkstate" => some <| run (fun ts => do
+        let (c, ts) ← pConfig ts
+        let (fid, ts) ← pBytes ts
+        let (uTail, ts) ← pBytes ts; let (uSalts, ts) ← pBytes ts; let (oSalts, ts) ← pBytes ts; let (pr, ts) ← pBytes ts
+        let (tbl, ts) ← pH2b ts
+        pure ((c, fid, ({ uTail, uSalts, oSalts, permsRnd := pr } : Rand), tbl), ts)) args
+      fun (c, fid, rnd, tbl) => showExcept showState (stateOfConfig (prims tbl) c fid rnd)
+  | "c5_encobj" => some <| run (fun ts => do
+        let (st, ts) ← pState ts; let (n, ts) ← pNat ts; let (g, ts) ← pNat ts
+        let (o, ts) ← pObjT ts; let (ivs, ts) ← pIVs ts; pure ((st, n, g, o, ivs), ts)) args
+      fun (st, n, g, o, ivs) => showExcept (fun (r : Obj × Nat) => showObj r.1 ++ " " ++ toString r.2) (encObj (prims []) st (n, g) ivs o 0)
+  | "c5_decobj" => some <| run (fun ts => do
+        let (st, ts) ← pState ts; let (n, ts) ← pNat ts; let (g, ts) ← pNat ts
+        let (o, ts) ← pObjT ts; pure ((st, n, g, o), ts)) args
+      fun (st, n, g, o) => showExcept showObj (decObj (prims []) st (n, g) o)
+  | "c5_encdoc" => some <| run (fun ts => do
+        let (st, ts) ← pState ts; let (d, ts) ← pDoc ts; let (ivs, ts) ← pIVs ts; pure ((st, d, ivs), ts)) args
+      fun (st, d, ivs) => showExcept showDoc (d.encrypt (prims []) st ivs)
+  | "c5_decdoc" => some <| run (fun ts => do
+        let (d, ts) ← pDoc ts; let (pw, ts) ← pBytes ts; let (tbl, ts) ← pH2b ts; pure ((d, pw, tbl), ts)) args
+      fun (d, pw, tbl) => showExcept showDoc (d.decryptRaw (prims tbl) pw)
+  | _ => none
 
 end Lopdf.Driver.C05
